@@ -81,15 +81,15 @@ P = {
 }
 
 GUARDS = {
- "C13": "the places where the configuration document gets its canonical order (input types, component connections, aliases), default-connection resolution, and when a loaded document's recorded hash is challenged",
- "C16": "ItemList.numbers (alternate-vocabulary path, computing the own numbers, the KeyError test) and of the copy constructor (which of the identifiers, numbers and cached ranks copied from the source an override makes stale)",
- "C15": "ItemList.__getstate__ / __setstate__ (what goes into the pickled state: stored identifiers / numbers, else resolved through the vocabulary, else left out)",
+ "C13": "the places where the configuration document gets its canonical order (input types, component connections, aliases, literals), what kind of node ComponentNode.create makes of a component (a class always has its configuration validated), default-connection resolution, and when a loaded document's recorded hash is challenged",
+ "C16": "ItemList.numbers (alternate-vocabulary path, computing the own numbers, the KeyError test) and of the copy constructor (which of the identifiers, numbers and cached ranks copied from the source an override makes stale), ItemList.ranks (unordered lists have no ranks whatever is stored) and the selector conversion of __getitem__",
+ "C15": "ItemList.__getstate__ / __setstate__ (what goes into the pickled state: stored identifiers / numbers, else resolved through the vocabulary, else left out) and the options DataContainer.save hands to write_table (none that coerces values)",
  "C14": "the copy depth at PipelineBuilder.from_pipeline / build_config and DatasetBuilder.__init__ / build_container",
  "C05": "the path selection of sample_records and sample_users (fall-back calls with their arguments)", "C06": "RankingMetricBase.truncate, Recall's denominator and nDCG's ideal length",
  "C01": "MatrixRelationshipSet.row_items / row_table and Vocabulary.number / numbers / term / terms (unknown identifiers are reported, negative numbers rejected)", "C02": "fallback_on_none (use_first_of) and the runner (status dispatch, answer to a request of a finished node, missing / ill-typed inputs, required-ness of dependencies, bail-out, deferred type test)", "C03": "TopNRanker.__call__, UserTrainingHistoryLookup.__call__ and stats.argtopn",
  "C07": "RunAnalysis.measure (test-data chain)", "C08": "BiasModel.compute_for_items (user-offset chain)", "C09": "UserKNNScorer.__call__ (self-similarity guard)",
  "C10": "ALSBase.__call__ (user number, fold-in guard) and the bias chain", "C11": "DerivingRNG.__call__, random_generator (which generator a seed resolves to), derivable_rng and the samplers' path selection", "C18": "Pipeline.train (seed classification, per-component options) and the retrain guard of all 13 shipped trainable components",
- "C19": "the list-length logic of StochasticTopNRanker, SoftmaxRanker and RandomSelector",
+ "C19": "the list-length logic of StochasticTopNRanker, SoftmaxRanker and RandomSelector, and that each builds its generator factory once, in its constructor",
 }
 
 def main():
@@ -106,6 +106,21 @@ def main():
             text += (" _sim_row, _sim_block and _sim_blocks (the similarity rows of the item-item model and their assembly into a CSR tensor block by block) are re-translated on every run (translate/py2lean_sim.py → LK/Generated/SimC09.lean, "
                      "torch operations in LK/Model/TorchOps.lean) and proved to store the model's simRowTrunc for every item, whatever the block size (simRowT_eq, simBlocksT_eq, simBlocksT_row).")
             tech += " + per-run translation of the similarity-row kernel proved equal to the model"
+        if pid == "C09":
+            text += (" The neighbour selection of UserKNNScorer.__call__ (userNbrsT: a user is a candidate iff its similarity is at least min_sim, never the user itself) and the per-target scoring of "
+                     "ItemKNNScorer.__call__ (itemScoreT: nothing below min_nbrs, the whole neighbourhood when it fits within max_nbrs, the max_nbrs most similar otherwise — proved to be the model's aggregate, itemScoreT_eq) are translated the same way.")
+        if pid == "C15":
+            text += (" The native Parquet layout of item-list collections (record_batches / save_parquet / load_parquet) is re-translated on every run (translate/py2lean_coll.py → LK/Generated/CollC15.lean) and proved to load, "
+                     "for every collection and every batch size, the saved keys in the saved order each with its own list (load_save, load_save_batch_indep).")
+            tech += " + per-run translation of the collection layout with a round-trip theorem for every batch size"
+        if pid in ("C14", "C02"):
+            text += (f" The builder's edit operations connect / clear_inputs / replace_component are re-translated on every run (translate/py2lean_build.py → LK/Generated/Build{pid}.lean) and proved "
+                     + ("to be the connect / clearInputs steps of the heap model (connectT_is_step, clearInputsT_is_step); the item-list copy constructor is read for fresh field dictionaries and no in-place change of objects shared with its source (run_leaves)."
+                        if pid == "C14" else "to retain the connections that are not given again and to wire a non-node value as a literal whatever it spells (replace_retains, replace_overrides, literal_stays_literal)."))
+            tech += " + per-run translation of the builder's edit operations with proof obligations"
+        if pid == "C17":
+            text += (" The identifier bookkeeping of add_entities is re-translated on every run (translate/py2lean_ent.py → LK/Generated/EntC17.lean) and proved to be the model's addEntities with the index equal to the table "
+                     "(addEntitiesT_eq, numbers_kept: entities keep their numbers when more are added).")
         if pid == "C19":
             text += " The linear transform of StochasticTopNRanker, the scaling statement before it and the statements after it (exponential-race keys, the pick) are re-translated on every run (translate/py2lean_imp.py → LK/Generated/ImpC19.lean) and proved equal to the model's linearWeights / keys / stochasticRank."
         if pid == "C07":
